@@ -123,6 +123,39 @@ impl Gen {
                 }
             }
             "saturate" => self.saturate(r),
+            "xback" => {
+                // layout-independent operations only (results must not depend on iteration order)
+                let x = self.rng.below(100);
+                let k = self.key();
+                let tgt = if self.rng.chance(1, 4) { "b" } else { "a" };
+                if x < 35 {
+                    format!("{} {}", tgt, self.insert(k))
+                } else if x < 55 {
+                    format!("{} remove {}", tgt, k)
+                } else if x < 65 {
+                    format!("{} get {}", tgt, k)
+                } else if x < 70 {
+                    format!("{} getmut {} {}", tgt, k, 500 + self.rng.below(100))
+                } else if x < 75 {
+                    format!("{} remove_entry {}", tgt, k)
+                } else if x < 79 {
+                    format!("{} reserve {}", tgt, self.rng.below(60))
+                } else if x < 83 {
+                    format!("{} shrink_to {}", tgt, self.rng.below(40))
+                } else if x < 86 {
+                    format!("{} shrink_to_fit", tgt)
+                } else if x < 89 {
+                    format!("{} clear", tgt)
+                } else if x < 93 {
+                    format!("{} eq", tgt)
+                } else if x < 95 {
+                    format!("{} try_reserve {}", tgt, self.rng.below(60))
+                } else if x < 97 {
+                    format!("{} with_capacity {}", tgt, self.rng.below(40))
+                } else {
+                    format!("{} contains {}", tgt, k)
+                }
+            }
             "iter" => {
                 // every iterator kind, at every prefix length, in many occupancy patterns
                 let x = self.rng.below(100);
